@@ -625,6 +625,24 @@ class ContainerEngine:
             return make_violation(self.prop, "K1", "ratemanager-count",
                                   feats, "RateManager and load_hdf5 "
                                   "disagree", i)
+        try:
+            with warnings.catch_warnings():
+                warnings.simplefilter("ignore")
+                mo = rio.load_hdf5(path, meta_only=True)
+                rates = list(rio.RateManager(path).get_rates("user"))
+        except _caught() as e:
+            return make_violation(
+                self.prop, "K1", f"meta-only-raises:{type(e).__name__}",
+                feats, f"load_hdf5(meta_only=True)/get_rates raised "
+                f"{type(e).__name__}: {str(e)[:120]}", i)
+        if [(m["enum"], m["rating"], m["name"], m["comment"])
+                for m in mo] != [(r["enum"], r["rating"], r["name"],
+                                  r["comment"]) for r in ratings] or \
+                rates != [r["rating"] for r in ratings]:
+            return make_violation(
+                self.prop, "K1", "meta-only-differs", feats,
+                "load_hdf5(meta_only=True) / RateManager.get_rates('user') "
+                "disagree with the full load", i)
         loaded = {}
         for r in ratings:
             ds = r["data_set"]
@@ -647,7 +665,11 @@ class ContainerEngine:
             orig = w.curve(e["ci"], e["variant"])
             # hdf5_rated must agree
             try:
-                is_rated, rate, comment = rio.hdf5_rated(path, orig)
+                # the rating GUI asks with a bare (path, enum) namespace
+                import types
+                probe = orig if (key[1] % 2) else types.SimpleNamespace(
+                    path=orig.path, enum=orig.enum)
+                is_rated, rate, comment = rio.hdf5_rated(path, probe)
             except _caught() as ex:
                 return make_violation(
                     self.prop, "K4" if e["state"] == "maybe" else "K1",
